@@ -73,11 +73,20 @@ var errVerifInvalidUTF8 = errors.New("string field contains invalid UTF-8")
 
 func verifStrsValid(ss ...string) bool {
 	for _, s := range ss {
-		if !utf8.ValidString(s) {
+		if !verifStrValid(s) {
 			return false
 		}
 	}
 	return true
+}
+
+// verifStrValid = utf8.ValidString, with fewer branches for the 1-byte strings the
+// harnesses use most.
+func verifStrValid(s string) bool {
+	if len(s) == 1 {
+		return s[0] < utf8.RuneSelf
+	}
+	return utf8.ValidString(s)
 }
 
 func verifTagsValid(m map[string]string) bool {
@@ -100,17 +109,17 @@ func verifPointValid(p *agent.Point) bool {
 		return false
 	}
 	for k := range p.FieldsDouble {
-		if !utf8.ValidString(k) {
+		if !verifStrValid(k) {
 			return false
 		}
 	}
 	for k := range p.FieldsInt {
-		if !utf8.ValidString(k) {
+		if !verifStrValid(k) {
 			return false
 		}
 	}
 	for k := range p.FieldsBool {
-		if !utf8.ValidString(k) {
+		if !verifStrValid(k) {
 			return false
 		}
 	}
